@@ -24,6 +24,22 @@ class Param:
     def is_zero(self):
         return self.kind == "const" and self.const == 0
 
+    @staticmethod
+    def unknown(truth, guess):
+        """unknown parameter: `truth` values generate the measurements,
+        `guess` (a const/scalar/vector Param) is the initial guess"""
+        p = Param("unknown", np.asarray(truth, dtype=complex))
+        p.guess = guess
+        return p
+
+    @staticmethod
+    def correlated(truth, other, sigma):
+        """parameter correlated with Param `other` (sigma: one value)"""
+        p = Param("correlated", np.asarray(truth, dtype=complex))
+        p.other = other
+        p.sigma = float(sigma)
+        return p
+
 
 def zero(F):
     return Param("const", np.zeros(F, dtype=complex), 0)
@@ -128,6 +144,12 @@ class Scenario:
             for row in st.sp:
                 for prm in row:
                     prm.var = None
+                    for sub in ("guess", "other"):
+                        q = getattr(prm, sub, None)
+                        while q is not None:
+                            q.var = None
+                            q = getattr(q, "guess", None) or \
+                                getattr(q, "other", None)
 
     def measure_noleak(self, std, f):
         """measurement with the outside-of-system leakage terms removed"""
@@ -350,7 +372,15 @@ class Scenario:
             return prm.var
         name = "p%d" % uid[0]
         uid[0] += 1
-        if prm.kind == "scalar":
+        if prm.kind == "unknown":
+            g = self.emit_param(s, prm.guess, vc, uid)
+            s.op("%s=vnacal_make_unknown_parameter $%s %s" % (name, vc, g))
+        elif prm.kind == "correlated":
+            o = self.emit_param(s, prm.other, vc, uid)
+            s.rvec("sg_" + name, [prm.sigma])
+            s.op("%s=vnacal_make_correlated_parameter $%s %s NULL 1 @sg_%s" % (
+                name, vc, o, name))
+        elif prm.kind == "scalar":
             s.op("%s=vnacal_make_scalar_parameter $%s %s" % (
                 name, vc, cx(prm.values[0])))
         else:
